@@ -76,7 +76,7 @@ class C15(Prop):
         scns.append(Scenario("name", "C15_closure", [], ks, {}))
         # the same algebra seen through clients: attribute / get / static access of one key; two clients sharing (or not)
         # a location; a remapped key under set(overwrite=False)
-        short_ns, short_keys = strings(3), [k for k in strings(4) if k != ""]
+        short_ns, short_keys = strings(3), [k for k in strings(4) if k != ""] + ["_a", "_a/b", "a/_b", "/_a", "__a"]      # and keys that look like private Python attributes
         ops = ["cacc %s %s" % (tok(ns), tok(k)) for ns in short_ns for k in short_keys]
         scns.append(Scenario("name", "C15_client_access", [], ops, {}))
         NS = ["", "/", "a", "/a", "/a/", "a/b", "/a/b"]
@@ -127,7 +127,7 @@ class C15(Prop):
                 if not (wf_ns(cns(ns)) and wf_key(k)):
                     continue
                 if op == "cacc":
-                    if r != "R ok|ok|val i:7|val i:7|val i:7|" + ab(ns, k) + "|val i:3" and ab(ns, k) not in (
+                    if r != "R ok|ok|val i:7|val i:7|val i:7|" + ab(ns, k) + "|val i:3|val i:4" and ab(ns, k) not in (
                             ab(ns, "d"), ab(ns, "d/e")):
                         out.append(viol("client-access", "Client(namespace=%r): register / write / read %r by attribute, "
                                         "get(absolute name), Blackboard.get -> %s" % (ns, k, r)))
